@@ -139,6 +139,16 @@ def gen_model(rng, max_demes=7, want_ms=False):
             if en is None:
                 en = lo
             migs.append(dict(source=a, dest=b, start_time=st, end_time=en, rate=rng.choice(RATES)))
+        # one pair switched on, off and on again with exactly the same rate (two records, a gap in between)
+        if rng.random() < 0.2:
+            a, b = rng.sample(names, 2)
+            lo, hi = overlap(a, b)
+            cuts = sorted(set(t for t in pool if lo < t < hi and not math.isinf(t)))
+            if len(cuts) >= 2 and lo < hi:
+                c1, c2 = sorted(rng.sample(cuts, 2))
+                r = rng.choice([x for x in RATES if x] or [1e-3])
+                migs.append(dict(source=a, dest=b, start_time=hi, end_time=c2, rate=r))
+                migs.append(dict(source=a, dest=b, start_time=c1, end_time=lo, rate=r))
         # symmetric-looking groups: all ordered pairs among a subset, one rate
         if n >= 2 and rng.random() < 0.5:
             grp = rng.sample(names, rng.randint(2, min(n, 4)))
@@ -666,6 +676,21 @@ def mutate_targeted(rng, doc):
         emit("migration.duplicate", lambda d: d["migrations"].append(dict(m, rate=0)))
         emit("migration.duplicate-first-zero", lambda d: d["migrations"].insert(0, dict(m, rate=0)))
         emit("migration.abutting", lambda d: d["migrations"].append(dict(m, start_time=m["end_time"], end_time=lo)) if m["end_time"] > lo else None)
+        # a second migration of the same pair whose interval lies strictly inside / strictly around this one, with rate 0
+        # on one of them, in both listing orders (an overlap that the rate check of the matrices cannot see)
+        hi_ = m["start_time"] if not math.isinf(m["start_time"]) else m["end_time"] + 100.0
+        w_ = hi_ - m["end_time"]
+        if w_ > 0:
+            inner = dict(m, start_time=m["end_time"] + 0.75 * w_, end_time=m["end_time"] + 0.25 * w_)
+            emit("migration.contained-zero-first", lambda d: (d["migrations"].__setitem__(i, dict(m, rate=m["rate"])),
+                                                             d["migrations"].insert(0, dict(inner, rate=0))))
+            emit("migration.contained-zero-after", lambda d: d["migrations"].append(dict(inner, rate=0)))
+            emit("migration.containing-zero-first", lambda d: (d["migrations"].__setitem__(i, dict(inner, rate=m["rate"])),
+                                                              d["migrations"].insert(0, dict(m, rate=0))))
+            emit("migration.three-with-disjoint-between",
+                 lambda d: (d["migrations"].__setitem__(i, dict(m, rate=0, end_time=m["end_time"] + 0.6 * w_)),
+                            d["migrations"].append(dict(m, start_time=m["end_time"] + 0.3 * w_, end_time=m["end_time"] + 0.1 * w_)),
+                            d["migrations"].append(dict(m, start_time=m["end_time"] + 0.8 * w_, end_time=m["end_time"] + 0.7 * w_))))
     for i, p in enumerate(doc["pulses"]):
         dst = p["dest"]
         for s in p["sources"]:
@@ -761,6 +786,28 @@ def boundary_families(rng):
             out.append(("family.migration-at-younger-start", e))
     rng.shuffle(out)
     return out
+
+
+def sister_family(rng):
+    """two to four demes with IDENTICAL size histories (same exponential or constant last epoch), optionally branching
+    from a common root; returns (document, N0) with N0 equal to the common present-day size or not"""
+    k = rng.randint(2, 4)
+    s0, s1 = rng.choice([(100, 1000), (1000.0, 250.0), (500, 500), (40, 4000.0)])
+    root = rng.random() < 0.5
+    demes = []
+    if root:
+        demes.append(dict(name="R", epochs=[dict(start_size=300, end_time=200)]))
+    for i in range(k):
+        d = dict(name="s%d" % i, epochs=[dict(start_size=s0, end_size=s1, end_time=0)])
+        if s0 == s1:
+            d["epochs"][0].pop("end_size")
+        if root:
+            d.update(ancestors=["R"], start_time=200)
+        else:
+            d["epochs"].insert(0, dict(start_size=s0, end_time=150))
+        demes.append(d)
+    doc = dict(time_units="generations", demes=demes)
+    return doc, rng.choice([s1, float(s1), s0, 100])
 
 
 def sawtooth_family(rng):
